@@ -61,6 +61,7 @@ VARIANTS = {
     "tsan": ([], "-O1 -g -fsanitize=thread", "clang", "-fsanitize=thread"),
     "extra": ([], "-O2 -DEAV_EXTRA", "cc", ""),
     "debug": ([], "-O0 -g", "cc", ""),
+    "uchar": ([], "-O2 -funsigned-char", "cc", ""),      # plain char unsigned, as on ARM / PowerPC
 }
 
 
